@@ -41,9 +41,24 @@ StructLists == {<<SOne("A"), SOne("B")>>, <<SOne("B"), SOne("A")>>, <<SOne("A"),
 ISchemas == {[structs |-> sl, enums |-> <<>>, impls |-> bs, services |-> <<>>, devices |-> <<>>] : sl \in StructLists, bs \in BindSeqs}
 Asked == <<"can", "uart", "default", "lin">>
 
+(* kind "cat": FcpV2.get(category) over trees with 0..2 declarations of every kind *)
+UpTo2(a, b) == {<<>>, <<a>>, <<a, b>>}
+Sig(n) == [name |-> n, fields |-> <<>>]
+BindS(t, sg) == [name |-> t, protocol |-> "can", type |-> t, fields |-> <<>>, signals |-> sg]
+CImpls == {<<>>} \cup {<<BindS("A", sa)>> : sa \in UpTo2(Sig("x"), Sig("y"))}
+                \cup {<<BindS("A", sa), BindS("B", sb)>> : sa \in UpTo2(Sig("x"), Sig("y")), sb \in UpTo2(Sig("x"), Sig("y"))}
+Enm(n) == [name |-> n, items |-> <<[name |-> "e0", value |-> [s |-> 0, m |-> <<>>]]>>]
+Svc == [name |-> "S", id |-> 1, methods |-> <<[name |-> "m", id |-> 0, input |-> "A", output |-> "A"]>>]
+Dev == [name |-> "D", fields |-> <<>>]
+CSchemas == {[structs |-> st, enums |-> en, impls |-> im, services |-> sv, devices |-> dv] :
+                st \in UpTo2([name |-> "A", fields |-> <<Fld("x", 0, U8), Fld("y", 1, U8)>>], SOne("B")),
+                en \in UpTo2(Enm("E"), Enm("F")), im \in CImpls, sv \in {<<>>, <<Svc>>}, dv \in {<<>>, <<Dev>>}}
+CatsAsked == <<"struct", "enum", "impl", "field", "signal_block", "type", "service", "device", "fields", "">>
+
 Init == \/ kind = "queries" /\ sch = <<>>
         \/ kind = "xpath" /\ sch \in XSchemas
         \/ kind = "impl" /\ sch \in ISchemas
+        \/ kind = "cat" /\ sch \in CSchemas
 Next == FALSE /\ UNCHANGED vars
 Spec == Init /\ [][Next]_vars
 
@@ -51,12 +66,13 @@ XLaws == kind = "xpath" => \A q \in 1..Len(Queries) :
             /\ RealPathFound(sch, Queries[q].root, Queries[q].path)
             /\ FoundHasLastName(sch, Queries[q].root, Queries[q].path)
 ILaws == kind = "impl" => \A a \in 1..Len(Asked) : MIODSound(sch, Asked[a])
+CLaws == kind = "cat" => CategoriesPartition(sch)
 (* refuted on purpose (MC_Query_refute.cfg): a found field need not lie on the path that was asked for *)
 NoSkip == kind = "xpath" => \A q \in 1..Len(Queries) : FoundOnlyRealPaths(sch, Queries[q].root, Queries[q].path)
 
 Code(r) == IF r.t = "ok" THEN <<r.s, r.i>> ELSE r.t
 Emit ==
-    CASE kind = "queries" -> PrintT("OUT " \o ToJson([kind |-> "queries", queries |-> Queries, asked |-> Asked]))
+    CASE kind = "queries" -> PrintT("OUT " \o ToJson([kind |-> "queries", queries |-> Queries, asked |-> Asked, cats |-> CatsAsked]))
       [] kind = "xpath"   -> PrintT("OUT " \o ToJson([kind |-> "xpath", sch |-> sch,
                                 out |-> [q \in 1..Len(Queries) |-> Code(GetXpath(sch, Queries[q].root, Queries[q].path))]]))
       [] kind = "impl"    -> PrintT("OUT " \o ToJson([kind |-> "impl", sch |-> sch,
@@ -64,4 +80,6 @@ Emit ==
                                 mi   |-> [a \in 1..Len(Asked) |-> MatchingImpls(sch, Asked[a])],
                                 one  |-> [a \in 1..Len(Asked) |-> [s \in 1..Len(sch.structs) |-> MatchingImpl(sch, sch.structs[s].name, Asked[a])]],
                                 protocols |-> SetToSeq(Protocols(sch))]))
+      [] kind = "cat"     -> PrintT("OUT " \o ToJson([kind |-> "cat", sch |-> sch,
+                                cats |-> [c \in 1..Len(CatsAsked) |-> GetCategory(sch, CatsAsked[c])]]))
 =============================================================================
